@@ -66,6 +66,10 @@ def gen(ctx):
         s = sc.gen_ring(ctx.rng, resolved=True)
     if r < 0.6 and ctx.rng.random() < 0.3:
         s = sc.add_branching_adapter(ctx.rng, s)   # a pass-through adapter with two targets (finalized once?)
+    if ctx.rng.random() < 0.15:
+        # a component without any coupling slot (no input, no output): it still walks the whole life cycle
+        s["comps"].append({"kind": "time", "start": ctx.rng.choice([0, 0, 1]), "steps": [ctx.rng.choice([1, 2, 3])]})
+        s["order"].insert(ctx.rng.randrange(len(s["order"]) + 1), len(s["comps"]) - 1)
     if ctx.rng.random() < 0.06:
         # one component declares itself FINISHED before the end time (recorded finding: the status does not survive)
         tcs = [c for c in s["comps"] if c["kind"] == "time"]
